@@ -178,6 +178,29 @@ def oracle_step(run, st, dflt, case, scripted=False):
     w, d = st.wire, st.direct
     script = case.get('script_result')
     case = {k: v for k, v in case.items() if k != 'script_result'}
+    faulted = [r for r in st.exchanges if r.get('fault')]
+    if faulted:
+        # the reply to this call was lost AFTER the server executed it: the caller must be told (ConnectionError /
+        # TimeoutError), and the request must not be sent again behind the caller's back
+        mode = faulted[0]['fault']
+        if len(st.exchanges) > 1:
+            run.violate({'kind': 'request_repeated_after_lost_reply', 'op': op, 'mode': mode}, case,
+                        {'requests_seen': len(st.exchanges), 'wire': _short(w, 300)})
+        if w.get('exc') not in ('ConnectionError', 'TimeoutError'):
+            run.violate({'kind': 'lost_reply_not_reported', 'op': op, 'mode': mode, 'wire': w.get('exc', 'ok')}, case,
+                        {'wire': _short(w, 300), 'direct': _short(d, 300)})
+        return
+    if len(st.exchanges) > 1:
+        run.violate({'kind': 'request_repeated', 'op': op}, case, {'requests_seen': len(st.exchanges)})
+    crashed = [r for r in st.exchanges if r.get('server_exception') and r['stage'] == 'execute']
+    if crashed:
+        # the repository code itself raised a non-CIM exception while executing (real HTTP server: the connection is
+        # closed without reply).  Not a C04 matter as long as the direct execution crashes in the same way.
+        run.count('oracle:server_crashed_while_executing')
+        if not d.get('local'):
+            run.violate({'kind': 'server_crashed_only_via_wire', 'op': op, 'direct': d.get('exc', 'ok')}, case,
+                        {'wire': _short(w, 300), 'direct': _short(d, 300)})
+        return
     unparsed = [r for r in st.exchanges if 'response' not in r and r['stage'] != 'execute']
     feats = features_of(st.kw)
     after = history_feature(case)
@@ -491,6 +514,9 @@ def compare_step(run, st, ans, case):
             run.disagree(case, common.from_cps(ans['rsp']['xml'])[:1500], rb.decode('utf-8')[:1500], op + ': response bytes')
     else:
         run.count('K:result_not_expressible')
+    if r.get('fault'):
+        run.count('K:lost_reply_client_side_not_modelled')
+        return
     # client side
     if 'ok' in w:
         real = {'ok': O.cval_json(op, st.wire_raw, cimproto.Tables())}
@@ -556,6 +582,53 @@ def run_invoke(run, n, out):
         out.append((steps[0], dflt, 'srv.host', hist_case(sizes, 1, dflt, [op], 0), False))
 
 
+STATE_CHANGING = ('CreateInstance', 'DeleteInstance', 'ModifyInstance', 'CreateClass', 'DeleteClass', 'ModifyClass',
+                  'SetQualifier', 'DeleteQualifier', 'PullInstancesWithPath', 'PullInstancePaths', 'PullInstances',
+                  'OpenEnumerateInstances', 'OpenEnumerateInstancePaths', 'CloseEnumeration', 'InvokeMethod')
+
+
+def http_case(sizes, seed, dflt, ops, fault, i):
+    return {'kind': 'http', 'sizes': sizes, 'seed': seed, 'dflt': dflt, 'ops': ops[:i + 1], 'all_ops': ops,
+            'fault': {str(k): v for k, v in fault.items()}, 'index': i}
+
+
+def check_http_states(run, states, case):
+    if states[0] != states[1]:
+        dd = c01.diff(states[0], states[1])
+        run.violate({'kind': 'repository_differs_after_history', 'faulted': bool(case['fault']),
+                     'where': (dd[0].split('.')[-1].replace('[]', '') if dd else '')}, case,
+                    {'diff': _short(dd, 800)})
+
+
+def run_http(run, n, out):
+    """histories through a REAL loopback HTTP server (whole client stack incl. urllib3 connection handling and retry
+    logic); in most of them the reply to one request is lost after the server executed it (connection closed without
+    reply, or after half of the body).  Oracle: the call reports ConnectionError/TimeoutError, the server saw every
+    call at most once, every other call equals the direct execution, the repository afterwards equals the twin's."""
+    rng = run.rng
+    for _ in range(n):
+        sizes = {'root/a': rng.choice([1, 3, 5]), 'root/b': rng.choice([0, 2])}
+        dflt = rng.choice(['root/a', 'root/a', 'root/b', None])
+        seed = rng.getrandbits(24)
+        nops = 8
+        ops = c04gen.gen_history(rng, None, sizes, nops)
+        # make sure something state-changing is there to lose the reply of
+        ops.insert(rng.randrange(0, 3), {'op': 'CreateInstance', 'args': {
+            'NewInstance': {'t': 'newinst', 'cls': 'TST_P', 'name': 'h%d' % rng.randrange(3), 'pathns': 0},
+            'namespace': {'t': 'str', 'v': 'root/a'}}})
+        ops.insert(rng.randrange(3, 6), {'op': 'DeleteInstance', 'args': {
+            'InstanceName': {'t': 'iname', 'cls': 'TST_P', 'key': 'p0', 'ns': 'root/a', 'host': None}}})
+        fault = {}
+        if rng.random() < 0.85:
+            cand = [i for i, o in enumerate(ops) if o['op'] in STATE_CHANGING] or list(range(len(ops)))
+            fault = {rng.choice(cand): rng.choice(['drop', 'drop', 'truncate'])}
+        steps, states = O.run_http_history(sizes, seed, ops, dflt, fault)
+        for i, st in enumerate(steps):
+            out.append((st, dflt, st.host, http_case(sizes, seed, dflt, ops, fault, i), False))
+        check_http_states(run, states, http_case(sizes, seed, dflt, ops, fault, len(ops) - 1))
+        run.count('http:faulted' if any(r.get('fault') for st in steps for r in st.exchanges) else 'http:clean')
+
+
 PROBES = [
     # CreateClass whose qualifiers leave the flavors None, then read it back
     {'name': 'class_flavors_none', 'sizes': {'root/a': 1, 'root/b': 0}, 'dflt': 'root/a', 'ops': [
@@ -592,8 +665,11 @@ def run(run):
                 'contexts; type-directed random objects (cimgen) as parameters; (b) near-miss calls with one wrongly typed '
                 'argument; (c) scripted servers returning arbitrary type-directed result lists / errors for every '
                 'operation; (d) InvokeMethod calls with parameters of every type (arrays with NULL items, references, '
-                'embedded instances; CIMParameter / tuple / keyword forms) against an echo method provider; (e) probes for '
-                'the recorded findings. One K case = one call (6 comparisons: request bytes, '
+                'embedded instances; CIMParameter / tuple / keyword forms) against method providers that echo the inputs or '
+                'answer with generated return values / output parameters of every CIM type as scalar and array (FALSE '
+                'booleans, NULL items, empty arrays); (e) histories through a REAL loopback HTTP server (whole client stack '
+                'incl. urllib3 retry logic) where the reply to one request is lost after the server executed it; (f) probes '
+                'for the recorded findings. One K case = one call (6 comparisons: request bytes, '
                 'request tree, server view, response bytes, client result, whole exchange); non-trivial = a request was '
                 'sent; distinct = distinct (operation, arguments, result) JSON')
     run.assumptions += [
@@ -655,10 +731,11 @@ def _run_all(run, with_model):
 
     out = []
     run_probes(run, out)
-    plan = [(run_histories, 600 if thorough else 60, 12), (run_nearmiss, 2000 if thorough else 200, None),
-            (run_scripted, 8000 if thorough else 900, None), (run_invoke, 1500 if thorough else 150, None)]
+    plan = [(run_histories, 500 if thorough else 60, 12), (run_nearmiss, 2000 if thorough else 200, None),
+            (run_scripted, 6000 if thorough else 800, None), (run_invoke, 1500 if thorough else 150, None),
+            (run_http, 120 if thorough else 24, None)]
     for fn, total, extra in plan:
-        chunk = 100 if fn is run_histories else 1000
+        chunk = 100 if fn in (run_histories, run_http) else 1000
         done = 0
         while done < total:
             n = min(chunk, total - done)
@@ -693,6 +770,7 @@ def search(run):
         run_nearmiss(run, 60, out)
         run_scripted(run, 300, out)
         run_invoke(run, 60, out)
+        run_http(run, 10, out)
         for st, dflt, host, case, scripted in out:
             oracle_step(run, st, dflt, case, scripted)
         new = [v for v in run.violations[before:] if not any(common.matches(f, PROP, v['sig']) for f in known)]
@@ -709,6 +787,14 @@ def replay(payload):
         steps = O.run_scripted([case['op']], [res], case['dflt'])
         st = steps[0]
         oracle_step(r, st, case['dflt'], dict(case, script_result=res), True)
+    elif case['kind'] == 'http':
+        fault = {int(k): v for k, v in case['fault'].items()}
+        ops = case.get('all_ops', case['ops'])
+        steps, states = O.run_http_history(case['sizes'], case['seed'], ops, case['dflt'], fault)
+        for i, st in enumerate(steps):
+            oracle_step(r, st, case['dflt'], dict(case, index=i, ops=ops[:i + 1]), False)
+        check_http_states(r, states, case)
+        st = steps[min(case['index'], len(steps) - 1)]
     else:
         steps = O.run_history(case['sizes'], case['seed'], case['ops'], case['dflt'])
         st = steps[case['index']]
